@@ -104,7 +104,7 @@ func runC05(r *Result, d *drv.Driver, tier string, seed int64, replay string) {
 	if tier == "thorough" {
 		nValid = 600
 	}
-	r.Rule = fmt.Sprintf("per-call allocation (runtime.MemStats.TotalAlloc delta) of the real Decode on: valid messages; every item position of every message (string, bytes, structure, skipped, fixed) with its declared length replaced by each of {0, 1, 2^16, 2^20, 2^30, 2^31, 2^32-8, 2^32-1}, with and without truncating the input right after that header, the same lie under another item type (structure / text / bytes), every Integer / Enumeration value (counts such as Batch Count) set to 2^16 / 2^20 / 2^22, and the same with every enclosing structure's length inflated consistently (so the lying item fits its parents); long values lying about their length while backed by 4-12 KiB of real payload; random mutations; honest messages of 64 KiB, 512 KiB and 4 MiB (long byte string, long text string, long run of items) whose per-byte cost must not grow with their size (<= 4x the 64 KiB value + 8). "+
+	r.Rule = fmt.Sprintf("per-call allocation (runtime.MemStats.TotalAlloc delta) of the real Decode on: valid messages; every item position of every message (string, bytes, structure, skipped, fixed) with its declared length replaced by each of {0, 1, 2^16, 2^20, 2^30, 2^31, 2^32-8, 2^32-1}, with and without truncating the input right after that header, the same lie under another item type (structure / text / bytes), every Integer / Enumeration value (counts such as Batch Count) set to 2^16 / 2^20 / 2^22, and the same with every enclosing structure's length inflated consistently (so the lying item fits its parents); long values lying about their length while backed by 4-12 KiB of real payload; random mutations; every one of these measurements is also compared with what the cost semantics of the decoder model (KmipModel/DecodeCost.lean, driver `deccost`) charges for that very input - the real allocation must stay below the model's charge with its fixed part taken as 16 KiB, and the charge below the proved bound; honest messages of 64 KiB, 512 KiB and 4 MiB (long byte string, long text string, long run of items) whose per-byte cost must not grow with their size (<= 4x the 64 KiB value + 8). "+
 		"Violation: allocation > %d x input length + %d bytes (the model's linear bound with A = %d). distinct = distinct input; non-trivial = carries a hostile length", allocA, allocB, allocA)
 	types := allDecodeTypes()
 	g := gen.New(seed)
@@ -222,6 +222,11 @@ func runC05(r *Result, d *drv.Driver, tier string, seed int64, replay string) {
 	}
 	var worst float64
 	nviol := 0
+	type measured struct {
+		in    decInput
+		alloc uint64
+	}
+	var ms []measured
 	for i, in := range inputs {
 		if nviol >= 4 {
 			r.Notes = append(r.Notes, "stopped after 4 allocations beyond the bound (each may be gigabytes)")
@@ -229,6 +234,9 @@ func runC05(r *Result, d *drv.Driver, tier string, seed int64, replay string) {
 		}
 		alloc, class := measureDecode(types[in.typ], in.data)
 		bound := uint64(allocA*len(in.data) + allocB)
+		if class != "timeout" && class != "panic" {
+			ms = append(ms, measured{in, alloc})
+		}
 		r.eval(in.typ+":"+hx(in.data), i >= base)
 		r.Stats["origin:"+strings.SplitN(strings.SplitN(in.origin, "+", 2)[0], ":", 2)[0]]++
 		r.Stats["class:"+class]++
@@ -254,6 +262,54 @@ func runC05(r *Result, d *drv.Driver, tier string, seed int64, replay string) {
 		}
 	}
 	r.Stats["worst-bytes-allocated-per-input-byte"] = int(worst)
+	// the cost semantics of the decoder model (KmipModel/DecodeCost.lean, about which C05_decode_cost_linear is proved) against
+	// the measurement, input by input: what the real Decode allocated must stay under what the model charges for that very input
+	{
+		lines := make([]string, len(ms))
+		for i, m := range ms {
+			lines[i] = fmt.Sprintf("deccost %s eof %s", m.in.typ, hx(m.in.data))
+		}
+		replies, err := d.AskAll(lines)
+		if err != nil {
+			r.find(Finding{Kind: "disagreement", What: "driver failure", Input: err.Error()})
+			return
+		}
+		var worstShare, worstTight float64
+		worstTightIn := ""
+		over := 0
+		for i, m := range ms {
+			var cost uint64
+			if _, e := fmt.Sscanf(replies[i], "cost %d", &cost); e != nil {
+				r.find(Finding{Kind: "disagreement", What: "the cost model gave no answer", Input: lines[i][:min(len(lines[i]), 300)], Actual: replies[i]})
+				break
+			}
+			r.Stats["cost-model-comparisons"]++
+			if cost > uint64(allocA*len(m.in.data)+allocB) {
+				r.find(Finding{Kind: "disagreement", What: "the cost model charges more than the bound proved for it (C05_decode_cost_linear)", Input: map[string]string{"type": m.in.typ, "bytes": hx(m.in.data)}, Expect: fmt.Sprintf("<= %d", allocA*len(m.in.data)+allocB), Actual: fmt.Sprint(cost)})
+			}
+			if share := float64(m.alloc) / float64(cost); share > worstShare {
+				worstShare = share
+			}
+			if share := float64(m.alloc) / float64(cost-65536+4096); share > worstTight {
+				worstTight = share
+				worstTightIn = fmt.Sprintf("%s %s alloc=%d cost=%d", m.in.typ, m.in.origin, m.alloc, cost)
+			}
+			// the model's fixed part B (64 KiB) is what the theorem needs for ANY caller; this process, with warm caches and an
+			// io.ByteScanner as source, is held to 16 KiB of it, so that the per-structure and per-item charges are really tested
+			tight := cost - 65536 + 16384
+			if m.alloc > tight {
+				// measured again, alone (TotalAlloc counts every goroutine of the process)
+				again, _ := measureDecode(types[m.in.typ], m.in.data)
+				if again > tight && over < 3 {
+					over++
+					r.find(Finding{Kind: "disagreement", What: "the real Decode allocated more than the decoder model's cost semantics charges for this input (the charges of KmipModel/DecodeCost.lean no longer bound the code)",
+						Input: map[string]string{"type": m.in.typ, "bytes": hx(m.in.data), "origin": m.in.origin}, Expect: fmt.Sprintf("<= %d (model cost %d with its fixed part taken as 16 KiB)", tight, cost), Actual: fmt.Sprintf("%d, measured again: %d", m.alloc, again)})
+				}
+			}
+		}
+		r.Stats["worst-measured/model-cost-percent"] = int(worstShare * 100)
+		r.Notes = append(r.Notes, fmt.Sprintf("cost model with its fixed part cut to 4 KiB: worst measured/model = %.2f (%s)", worstTight, worstTightIn))
+	}
 	c05Scaling(r)
 	c05Fragmented(r)
 }
